@@ -347,13 +347,18 @@ class PersistenceImager(TransformerMixin):
         self._pixel_size = pixel_size
         self._birth_range = birth_range
         self._pers_range = pers_range
-        self._width = birth_range[1] - birth_range[0]
-        self._height = pers_range[1] - pers_range[0]
-        self._resolution = (
-            int(self._width / self._pixel_size),
-            int(self._height / self._pixel_size),
-        )
+        # round both ranges up to a whole number of pixels, exactly as the setters do
+        n_birth = self._num_pixels(birth_range)
+        n_pers = self._num_pixels(pers_range)
+        self._width = n_birth * self._pixel_size
+        self._height = n_pers * self._pixel_size
+        self._resolution = (n_birth, n_pers)
         self._create_mesh()
+
+    def _num_pixels(self, val_range):
+        # whole number of pixels needed to cover a range; this count *is* the resolution along
+        # that axis (re-deriving it as int(width / pixel_size) can lose a pixel to rounding)
+        return int(np.ceil((val_range[1] - val_range[0]) / self._pixel_size))
 
     @property
     def width(self):
@@ -406,18 +411,11 @@ class PersistenceImager(TransformerMixin):
     @pixel_size.setter
     def pixel_size(self, val):
         self._pixel_size = val
-        self._width = (
-            int(np.ceil((self.birth_range[1] - self.birth_range[0]) / self.pixel_size))
-            * self.pixel_size
-        )
-        self._height = (
-            int(np.ceil((self.pers_range[1] - self.pers_range[0]) / self.pixel_size))
-            * self.pixel_size
-        )
-        self._resolution = (
-            int(self.width / self.pixel_size),
-            int(self.height / self.pixel_size),
-        )
+        n_birth = self._num_pixels(self._birth_range)
+        n_pers = self._num_pixels(self._pers_range)
+        self._width = n_birth * self._pixel_size
+        self._height = n_pers * self._pixel_size
+        self._resolution = (n_birth, n_pers)
         self._create_mesh()
 
     @property
@@ -435,14 +433,9 @@ class PersistenceImager(TransformerMixin):
     @birth_range.setter
     def birth_range(self, val):
         self._birth_range = val
-        self._width = (
-            int(np.ceil((self.birth_range[1] - self.birth_range[0]) / self.pixel_size))
-            * self._pixel_size
-        )
-        self._resolution = (
-            int(self.width / self.pixel_size),
-            int(self.height / self.pixel_size),
-        )
+        n_birth = self._num_pixels(val)
+        self._width = n_birth * self._pixel_size
+        self._resolution = (n_birth, self._resolution[1])
         self._create_mesh()
 
     @property
@@ -460,14 +453,9 @@ class PersistenceImager(TransformerMixin):
     @pers_range.setter
     def pers_range(self, val):
         self._pers_range = val
-        self._height = (
-            int(np.ceil((self.pers_range[1] - self.pers_range[0]) / self.pixel_size))
-            * self._pixel_size
-        )
-        self._resolution = (
-            int(self.width / self.pixel_size),
-            int(self.height / self.pixel_size),
-        )
+        n_pers = self._num_pixels(val)
+        self._height = n_pers * self._pixel_size
+        self._resolution = (self._resolution[0], n_pers)
         self._create_mesh()
 
     def __repr__(self):
